@@ -173,11 +173,14 @@ pub fn base_builder(cfg: &CacheCfg, listener: Option<Arc<Recorder>>) -> CacheBui
     Some(c) => b.capacity(c),
     None => b.unbounded(),
   };
-  if !cfg.default_policy {
+  // An unbounded cache must not be given a policy that evicts on its own budget: TinyLFU's
+  // sketch is sized by its capacity, so unbounded + TinyLFU uses the builder default (which
+  // is what the builder itself would pick); SLRU / ARC get a practically infinite budget.
+  if !cfg.default_policy && !(cfg.capacity.is_none() && cfg.policy == Policy::TinyLfu) {
     let p = cfg.policy;
     let shard_cap = match cfg.capacity {
       Some(c) => ((c as f64) / (cfg.shards as f64)).ceil() as u64,
-      None => 1024,
+      None => 1 << 40,
     };
     b = b.cache_policy_factory(move || policy_box(p, shard_cap));
   }
@@ -512,3 +515,5 @@ impl Finding {
 pub fn pick_profile(rng: &mut Rng) -> vh_core::chaos::Profile {
   vh_core::chaos::Profile::pick(rng)
 }
+
+pub mod load;
